@@ -697,7 +697,7 @@ class LangServer:
                 tmp_list = []
                 if name_replace is None:
                     name_replace = candidate.name
-                for member in candidate.mems:
+                for member in self._get_interface_members(candidate):
                     tmp_text, _ = member.get_snippet(name_replace)
                     if tmp_list.count(tmp_text) > 0:
                         continue
@@ -1138,7 +1138,7 @@ class LangServer:
                 )
             )
         elif var_type == INTERFACE_TYPE_ID:
-            for member in var_obj.mems:
+            for member in self._get_interface_members(var_obj):
                 hover_str, docs = member.get_hover(long=True)
                 if hover_str is not None:
                     hover_array.append(create_hover(hover_str, docs))
@@ -1465,6 +1465,19 @@ class LangServer:
             self.link_version = (self.link_version + 1) % 1000
             ast_new.resolve_links(self.obj_tree, self.link_version)
         return True, None
+
+    @staticmethod
+    def _get_interface_members(obj) -> list:
+        """Members of a generic interface, also when ``obj`` is a binding, pointer
+        or ASSOCIATE name that is merely linked to the interface"""
+        for _ in range(16):
+            mems = getattr(obj, "mems", None)
+            if mems is not None:
+                return mems
+            obj = getattr(obj, "link_obj", None)
+            if obj is None:
+                break
+        return []
 
     def _remove_global_obj(self, key: str, filepath: str) -> None:
         """Remove a top-level object from the object tree, unless the name is by
